@@ -257,7 +257,7 @@ def c06(pid, tier, seed):
         fam("hidden_then_shown", W=6, H=8, D=5 if q else 6, BarOps=("tick", "inc", "set_message", "println", "set_target", "finish", "reset"), MsgShapes=("a", "W1"), TextShapes=("T",),
             Tpls=("MnC",), Fins=("AndLeave",), Tgt="hidden"),
         fam("not_a_tty", W=10, H=5, D=4 if q else 5, BarOps=ops, MsgShapes=("a",), TextShapes=("T",), Tpls=("MnC",), Fins=("AndLeave", "WithMessage"), Tgt="pipe"),
-        fam("hidden_multi", W=10, H=5, Multi=True, MaxBars=2, D=4, BarOps=ops + ("mp_remove",), MpOps=("mp_println", "mp_clear", "mp_suspend", "insert"),
+        fam("hidden_multi", W=10, H=5, Multi=True, MaxBars=2, D=4, BarOps=(tuple(o for o in ops if o not in ("set_tab_width", "set_style", "iter", "is_hidden", "abandon", "set_prefix")) if q else ops) + ("mp_remove", "readd"), MpOps=("mp_println", "mp_clear", "mp_suspend", "insert"),
             MsgShapes=("a",), TextShapes=("T",), Tpls=("MnC",), Fins=("AndLeave", "AndClear"), Tgt="hidden", M0="id", shards=12),
     ] + ([] if q else [
         # depth 5 of the full alphabet is ~40M records (measured: 325k histories for this one); the deep family keeps the calls that change what a hidden member holds
@@ -282,6 +282,12 @@ def c18(pid, tier, seed):
             MsgShapes=("a", "W1"), TextShapes=("T",), Tpls=("MnC",), Fins=("AndLeave",), Faults=(1, 2, 3, 5, 8), M0="id"),
         fam("faults_multi", W=6, H=8, Multi=True, MaxBars=2, Pre=2, D=5 if q else 6, BarOps=("tick", "set_message", "println", "suspend", "finish", "drop", "set_tab_width"),
             MpOps=("mp_println", "mp_clear", "mp_suspend"), MsgShapes=("a",), TextShapes=("T",), Tpls=("M",), Fins=("AndLeave",), Faults=(1, 2, 4, 7), M0="id", shards=12),
+        # faults while a member is unlinked / moved (set_draw_target, add of an existing member, remove: each repaints the MultiProgress)
+        fam("faults_multi_relink", W=6, H=8, Multi=True, MaxBars=2, Pre=2, D=5 if q else 6, BarOps=("tick", "set_target", "readd", "mp_remove", "finish", "drop"),
+            MpOps=("mp_println",), TextShapes=("T",), Tpls=("M",), Fins=("AndLeave",), Faults=(1, 2, 3, 5), M0="id", shards=12),
+        # bottom alignment: the filler lines written when the region shrinks are terminal operations like any other
+        fam("faults_multi_bottom", W=6, H=8, Multi=True, MaxBars=2, Pre=2, D=5 if q else 6, BarOps=("tick", "finish_and_clear", "mp_remove", "drop"),
+            MpOps=("mp_println", "mp_clear"), TextShapes=("T",), Tpls=("M",), Fins=("AndClear",), Faults=(1, 2, 3, 4, 5, 6, 7, 8), M0="id", Align="bottom", shards=12),
         fam("faults_multi_zombies", W=6, H=8, Multi=True, MaxBars=2, Pre=2, Once=True, D=6 if q else 7, BarOps=("println", "finish", "drop"),
             MpOps=("mp_println", "mp_clear"), TextShapes=("T",), Tpls=("M",), Fins=("AndLeave",), Faults=(1, 2, 4), M0="id", shards=12),
     ]
